@@ -386,10 +386,13 @@ Theorem c17_let_subst_identity_at : ltac:(let t := type of rw_let_subst_identity
 Proof. exact rw_let_subst_identity_at. Qed.
 Print Assumptions c17_let_subst_identity_at.
 
-(* InlineDefinedFuns at a use site (Model/InlineRw.v): the beta rule for eval.  The implementation has no capture guards
-   (known finding F19), so capture-freeness is a hypothesis (inline_side: formals of the shape (p S) with pairwise distinct
-   names that occur in the body in term positions only and are not bound again there; no leaf of an actual whose formal occurs
-   in the body is bound inside the body); every condition is shown necessary by an example in Props/C17Inline.v *)
+(* InlineDefinedFuns at a use site (Model/InlineRw.v): the beta rule for eval.  The implementation had no capture guards
+   (known finding F19), so capture-freeness is a hypothesis of c17_inline_identity (inline_side: formals of the shape (p S)
+   with pairwise distinct names that occur in the body in term positions only and are not bound again there; no leaf of an
+   actual whose formal occurs in the body is bound inside the body); every condition is shown necessary by an example in
+   Props/C17Inline.v.  After the fix of F19 (the model mirrors the guard of smtlib.__instantiate) the last two conditions are
+   established by the guard whenever there is a proposal: c17_inline_identity_guarded asks inline_side_guarded only (formals
+   of the shape (p S), pairwise distinct names, term positions only) *)
 From DD Require Import Props.C17Inline.
 Theorem c17_inline_identity : ltac:(let t := type of rw_inline_identity in exact t).
 Proof. exact rw_inline_identity. Qed.
@@ -397,6 +400,12 @@ Print Assumptions c17_inline_identity.
 Theorem c17_inline_beta_rule : ltac:(let t := type of inline_beta_rule in exact t).
 Proof. exact inline_beta_rule. Qed.
 Print Assumptions c17_inline_beta_rule.
+Theorem c17_inline_identity_guarded : ltac:(let t := type of rw_inline_identity_guarded in exact t).
+Proof. exact rw_inline_identity_guarded. Qed.
+Print Assumptions c17_inline_identity_guarded.
+Theorem c17_inline_guard_gives_side : ltac:(let t := type of rw_inline_guard_gives_side in exact t).
+Proof. exact rw_inline_guard_gives_side. Qed.
+Print Assumptions c17_inline_guard_gives_side.
 
 (* value preservation of three further rewrites (Model/ConstRw.v); the forms in which they are NOT identities (n-ary concat,
    signed predicates, distinct chains, BVTransformToBool with #b0) are refuted by examples in Props/ConstRwProps.v -- none of
@@ -428,6 +437,12 @@ Print Assumptions c17_inline_sort.
 Theorem c17_inline_same_sort : ltac:(let t := type of rw_inline_same_sort in exact t).
 Proof. exact rw_inline_same_sort. Qed.
 Print Assumptions c17_inline_same_sort.
+Theorem c17_inline_sort_guarded : ltac:(let t := type of rw_inline_sort_guarded in exact t).
+Proof. exact rw_inline_sort_guarded. Qed.
+Print Assumptions c17_inline_sort_guarded.
+Theorem c17_inline_same_sort_guarded : ltac:(let t := type of rw_inline_same_sort_guarded in exact t).
+Proof. exact rw_inline_same_sort_guarded. Qed.
+Print Assumptions c17_inline_same_sort_guarded.
 Theorem c17_type_of_coincidence : ltac:(let t := type of type_of_coincidence in exact t).
 Proof. exact type_of_coincidence. Qed.
 Print Assumptions c17_type_of_coincidence.
